@@ -1,0 +1,54 @@
+//go:build verif
+
+package gpkg
+
+import (
+	"database/sql"
+	"math"
+
+	"github.com/go-spatial/geom"
+	"github.com/go-spatial/geom/cmp"
+	"github.com/go-spatial/geom/encoding/gpkg"
+	"github.com/mattn/go-sqlite3"
+)
+
+// Hook for the verification harness in /verif (build tag verif): the sandbox has no mod_spatialite.
+// go-spatial's gpkg package reuses a database/sql driver called "spatialite" when one is registered already,
+// so this registers plain SQLite under that name with the handful of ST_ functions the rtree triggers call.
+
+func init() {
+	sql.Register(gpkg.SPATIALITE, &sqlite3.SQLiteDriver{
+		ConnectHook: func(conn *sqlite3.SQLiteConn) error {
+			if err := conn.RegisterFunc("ST_IsEmpty", verifIsEmpty, true); err != nil {
+				return err
+			}
+			for name, idx := range map[string]int{"ST_MinX": 0, "ST_MinY": 1, "ST_MaxX": 2, "ST_MaxY": 3} {
+				i := idx
+				if err := conn.RegisterFunc(name, func(b []byte) float64 { return verifExtentOrd(b, i) }, true); err != nil {
+					return err
+				}
+			}
+			return nil
+		},
+	})
+}
+
+func verifIsEmpty(b []byte) bool {
+	sb, err := gpkg.DecodeGeometry(b)
+	if err != nil {
+		return true
+	}
+	return cmp.IsEmptyGeo(sb.Geometry)
+}
+
+func verifExtentOrd(b []byte, i int) float64 {
+	sb, err := gpkg.DecodeGeometry(b)
+	if err != nil {
+		return math.NaN()
+	}
+	ext, err := geom.NewExtentFromGeometry(sb.Geometry)
+	if err != nil || ext == nil {
+		return math.NaN()
+	}
+	return ext[i]
+}
